@@ -101,6 +101,8 @@ pub struct WorldState {
     /// every credential ever accepted by the store, in creation order
     pub creds: Vec<ModelCred>,
     pub fired: BTreeMap<&'static str, u64>,
+    /// per actor: Some(v) once the harness changed the verification capability to v
+    pub verification_override: Vec<Option<Option<bool>>>,
 }
 
 pub type Shared = Arc<Mutex<WorldState>>;
@@ -548,6 +550,8 @@ pub struct SimUser {
     pub world: Shared,
     pub presence_enabled: bool,
     pub verification: Option<bool>,
+    /// index of the actor this user belongs to (its capability can be changed by the harness)
+    pub actor: usize,
 }
 
 #[async_trait::async_trait]
@@ -619,7 +623,10 @@ impl UserValidationMethod for SimUser {
     }
 
     fn is_verification_enabled(&self) -> Option<bool> {
-        self.verification
+        match lk(&self.world).verification_override.get(self.actor).copied().flatten() {
+            Some(v) => v,
+            None => self.verification,
+        }
     }
 }
 
@@ -1264,7 +1271,12 @@ async fn run_op(
             resolved.exclude = exclude.clone();
             let extensions = ctap2::make_credential::ExtensionInputs {
                 hmac_secret: s.hmac_secret,
-                hmac_secret_mc: None,
+                hmac_secret_mc: s.hmac_secret_mc.then(|| ctap2::extensions::HmacGetSecretInput {
+                    key_agreement: ciborium::value::Value::Map(vec![(ciborium::value::Value::Integer(1.into()), ciborium::value::Value::Integer(2.into()))]),
+                    salt_enc: vec![0x5a; 32].into(),
+                    salt_auth: vec![0xa5; 16].into(),
+                    pin_uv_auth_protocol: Some(2),
+                }),
                 prf: s.prf.as_ref().map(|p| ctap_prf(p, &creds, &s.rp_id, &mut resolved.ctap_by_cred)),
             }
             .zip_contents();
@@ -1464,6 +1476,22 @@ async fn run_op(
                 Err(e) => OpResult::U2fVersion(Err(format!("parse: {e:?}"))),
             }
         }
+        OpKind::SetCapability { capability, verification } => {
+            let task = current_task();
+            if let Some(slot) = lk(world).verification_override.get_mut(task) {
+                *slot = Some(*verification);
+            }
+            let ok = client
+                .authenticator_mut()
+                .store_mut()
+                .with_seam(|seam| {
+                    if let AnyBackend::Ref(r) = &mut seam.backend {
+                        r.cfg.capability = *capability;
+                    }
+                })
+                .is_some();
+            OpResult::SetCounter(ok)
+        }
         OpKind::SetCounter { cred, value } => {
             if creds.is_empty() {
                 return OpResult::Skipped("no credential".into());
@@ -1501,6 +1529,7 @@ fn op_kind_name(k: &OpKind) -> &'static str {
         OpKind::U2fAuthenticate { .. } => "u2f_authenticate",
         OpKind::U2fVersion { .. } => "u2f_version",
         OpKind::SetCounter { .. } => "set_counter",
+        OpKind::SetCapability { .. } => "set_capability",
     }
 }
 
@@ -1583,6 +1612,7 @@ pub fn run_ceremony(c: &Ceremony) -> RunRecord {
             .map(|p| ModelCred { id: p.id.clone(), rp_id: p.rp_id.clone() })
             .collect(),
         fired: BTreeMap::new(),
+        verification_override: vec![None; c.actors.len()],
     }));
     // Slot keeps only the last prelude credential
     if c.backend == Backend::Slot {
@@ -1626,6 +1656,7 @@ pub fn run_ceremony(c: &Ceremony) -> RunRecord {
                 world: world.clone(),
                 presence_enabled: actor.presence_enabled,
                 verification: actor.verification,
+                actor: t,
             };
             let mut auth = Authenticator::new(Aaguid::from([0xA5; 16]), store, user);
             auth.set_make_credentials_with_signature_counter(actor.counter);
